@@ -679,7 +679,16 @@ impl<'a> TLVElement<'a> {
         }
     }
 
-    fn fmt(&self, indent: usize, f: &mut fmt::Formatter) -> fmt::Result {
+    /// Format this element, nested `depth` containers deep (indentation: two spaces per level).
+    ///
+    /// The formatting is recursive - one call per nesting level - and the data is usually untrusted
+    /// (e.g. the payload of a received message that is being logged), so the descent is bounded:
+    /// the content of a container nested deeper than `MAX_FMT_DEPTH` is rendered as ` ... ` rather than
+    /// formatted, which bounds the stack usage regardless of the input (a message made only of container
+    /// start / end octets would otherwise nest - and recurse - half its length deep).
+    fn fmt(&self, depth: usize, f: &mut fmt::Formatter) -> fmt::Result {
+        let indent = depth * 2;
+
         pad(indent, f)?;
 
         let tag = self.tag().map_err(|_| fmt::Error)?;
@@ -695,23 +704,34 @@ impl<'a> TLVElement<'a> {
         value.fmt(f)?;
 
         if value.value_type().is_container() {
-            let mut empty = true;
+            let mut elems = self.container().map_err(|_| fmt::Error)?.iter();
 
-            for (index, elem) in self.container().map_err(|_| fmt::Error)?.iter().enumerate() {
-                if index > 0 {
-                    writeln!(f, ",")?;
-                } else {
-                    writeln!(f)?;
+            if depth >= MAX_FMT_DEPTH {
+                // Do not descend any further; just indicate whether the container has content
+                if let Some(elem) = elems.next() {
+                    elem.map_err(|_| fmt::Error)?;
+
+                    write!(f, " ... ")?;
+                }
+            } else {
+                let mut empty = true;
+
+                for (index, elem) in elems.enumerate() {
+                    if index > 0 {
+                        writeln!(f, ",")?;
+                    } else {
+                        writeln!(f)?;
+                    }
+
+                    elem.map_err(|_| fmt::Error)?.fmt(depth + 1, f)?;
+
+                    empty = false;
                 }
 
-                elem.map_err(|_| fmt::Error)?.fmt(indent + 2, f)?;
-
-                empty = false;
-            }
-
-            if !empty {
-                writeln!(f)?;
-                pad(indent, f)?;
+                if !empty {
+                    writeln!(f)?;
+                    pad(indent, f)?;
+                }
             }
 
             match value.value_type() {
@@ -725,6 +745,11 @@ impl<'a> TLVElement<'a> {
         Ok(())
     }
 }
+
+/// The maximum container nesting that the `Display` / `Debug` implementations of `TLVElement` and `TLVSequence`
+/// descend into (deeper content is rendered as ` ... `). Matter payloads nest a handful of levels;
+/// the formatter recurses once per level (a few hundred bytes of stack each).
+const MAX_FMT_DEPTH: usize = 16;
 
 impl fmt::Debug for TLVElement<'_> {
     fn fmt(&self, f: &mut fmt::Formatter) -> fmt::Result {
@@ -1157,7 +1182,7 @@ impl<'a> TLVSequence<'a> {
             .ok_or(ErrorCode::TLVTypeMismatch)?)
     }
 
-    pub(crate) fn fmt(&self, indent: usize, f: &mut fmt::Formatter) -> fmt::Result {
+    pub(crate) fn fmt(&self, depth: usize, f: &mut fmt::Formatter) -> fmt::Result {
         let mut first = true;
 
         for elem in self.iter() {
@@ -1169,7 +1194,7 @@ impl<'a> TLVSequence<'a> {
 
             let elem = elem.map_err(|_| fmt::Error)?;
 
-            elem.fmt(indent, f)?;
+            elem.fmt(depth, f)?;
         }
 
         if !first {
@@ -1357,6 +1382,43 @@ mod tests {
         tlv::{TLVArray, TLVList, TLVSequence, TLVStruct, TLVTag, TLVValue, TLVWrite, TLV},
         utils::storage::WriteBuf,
     };
+
+    #[test]
+    fn test_fmt_depth_is_bounded() {
+        extern crate std;
+
+        use std::format;
+        use std::vec::Vec;
+
+        // A container nested up to the maximum depth is formatted in full ...
+        let nested = |n: usize| -> Vec<u8> {
+            let mut data = Vec::new();
+            data.resize(n, 0x15);
+            data.push(0x04);
+            data.push(0x07);
+            data.resize(2 * n + 2, 0x18);
+            data
+        };
+
+        let shallow = format!("{}", TLVElement::new(&nested(super::MAX_FMT_DEPTH)));
+        assert!(shallow.contains("U8(0x07)"));
+        assert!(!shallow.contains("..."));
+
+        // ... while deeper content is elided
+        let deep = format!("{}", TLVElement::new(&nested(super::MAX_FMT_DEPTH + 2)));
+        assert!(!deep.contains("U8(0x07)"));
+        assert!(deep.contains("{ ... }"));
+
+        // A message-sized input made of container starts only (640 levels) needs a small, constant stack
+        let data = nested(640);
+        let formatted = std::thread::Builder::new()
+            .stack_size(64 * 1024)
+            .spawn(move || format!("{:?}", TLVElement::new(&data)))
+            .unwrap()
+            .join()
+            .unwrap();
+        assert!(formatted.contains("{ ... }"));
+    }
 
     #[test]
     fn test_no_container_for_int() {
